@@ -5,6 +5,7 @@
    root without any filter), [spec_roots] the property's reading (the tag / exclude-tag / type /
    platform filters are those of the target a matched node stands for). *)
 From Grog Require Import Str Label Graph Select Select_proofs.
+From Grog Require Build Build_lift_proofs.
 
 (* full statement, property's reading of a root: REFUTED -- a target is selected (and built)
    although no pattern/filter match depends on it (known finding C12-F1: an alias matching the
@@ -84,3 +85,23 @@ Theorem C12_no_partial_build : forall cfg ns g S,
   forall r n, In r (roots cfg ns g) -> reach g n r -> node_matches_platform cfg (attr ns n) = true.
 Proof. exact selection_platform_ok. Qed.
 Print Assumptions C12_no_partial_build.
+
+(* ------------------------------------------------------------------ no other target's command runs (Build.v) *)
+(* Every command a build starts belongs to a selected target, and every selected node is a root or
+   reachable from a root through dependency edges (aliases are nodes): nothing outside the
+   dependency closure of the roots ever runs.  For every digest, snapshot, roots, workspace, cache;
+   mode load_outputs=all (in mode minimal the commands re-run for dependency loading belong to
+   dependencies of selected targets, which are selected: C12_closed). *)
+Theorem C12_only_selected_commands_run : forall (H : Str.str -> Str.str) cfg s roots w c,
+  Build.cfg_mode cfg = Build.LAll ->
+  forall l, In l (Build.br_exec (Build.build H cfg s roots w c)) ->
+  exists i t, i < length (Build.s_nodes s) /\
+              existsb (Nat.eqb i) (Build.selection s roots) = true /\
+              Build.node_at s i = Some (Build.NTarget t) /\ Build.td_label t = l.
+Proof. exact Build_lift_proofs.exec_only_selected. Qed.
+Print Assumptions C12_only_selected_commands_run.
+
+Theorem C12_selected_within_closure : forall s roots x,
+  In x (Build.selection s roots) -> exists r, In r roots /\ Build_lift_proofs.breach s r x.
+Proof. exact Build_lift_proofs.selection_sound. Qed.
+Print Assumptions C12_selected_within_closure.
